@@ -330,9 +330,14 @@ pub(super) fn find_date_time(
                 let valid_transition_times = &additional_transition_times[first_valid..];
                 let valid_transitions = &additional_transitions[first_valid..];
 
-                let valid_iter = valid_transition_times.iter().copied().zip(valid_transitions.iter().copied());
+                let mut valid_iter = valid_transition_times.iter().copied().zip(valid_transitions.iter().copied()).peekable();
 
-                for (transition_unix_time, &(&local_time_type_before, &local_time_type_after, unix_time_before, unix_time_after)) in valid_iter {
+                while let Some((transition_unix_time, &(&local_time_type_before, &local_time_type_after, unix_time_before, unix_time_after))) = valid_iter.next() {
+                    // Two transitions occurring at the same time cancel each other (e.g. all-year DST), so there is nothing to report for them
+                    if valid_iter.next_if(|&(next_transition_unix_time, _)| next_transition_unix_time == transition_unix_time).is_some() {
+                        continue;
+                    }
+
                     if previous_transition_unix_time <= unix_time_before && unix_time_before < transition_unix_time {
                         found_date_time_list.push(FoundDateTimeKind::Normal(new_datetime(local_time_type_before, unix_time_before)));
                     } else {
